@@ -109,13 +109,16 @@ def run_entry(entry, X, metric_name, rng, p, calls):
     ref = cc.ref_metric(metric_name)
     n = len(X)
     k = p['k']
+    # the function form also takes the triangle-inequality shortcut
+    tri = {'use_triangle_inequality': True} if rng.random() < 0.3 else {}
     if entry == 'kc_n':
-        return do(kcenters.kcenters, X, m, n_clusters=k), k
+        return do(kcenters.kcenters, X, m, n_clusters=k, **tri), k
     if entry == 'kc_r':
         return do(kcenters.kcenters, X, m, dist_cutoff=p['r'],
-                  n_clusters=None if p['none'] else np.inf), None
+                  n_clusters=None if p['none'] else np.inf, **tri), None
     if entry == 'kc_both':
-        return do(kcenters.kcenters, X, m, n_clusters=k, dist_cutoff=p['r']), None
+        return do(kcenters.kcenters, X, m, n_clusters=k, dist_cutoff=p['r'],
+                  **tri), None
     if entry == 'KC_est':
         if p['none']:
             e = kcenters.KCenters(m, n_clusters=k)
@@ -136,7 +139,7 @@ def run_entry(entry, X, metric_name, rng, p, calls):
         if rng.random() < 0.5:
             init = [r for r in init]          # a plain list of frames
         return do(kcenters.kcenters, X, m, n_clusters=min(kk, n),
-                  init_centers=init), None
+                  init_centers=init, **tri), None
     seed = p['seed']
     iters = p['iters']
     if entry == 'km_cold':
